@@ -13,7 +13,7 @@ ALGS = ["SSIcov", "SSIdat", "SSIcov_MS", "SSIdat_MS", "pLSCF", "pLSCF_MS"]
 REQUIRED_MONITORS = [f"sound+complete@{a}.run" for a in ALGS] + [f"one-NaN-pattern@{a}.run" for a in ALGS] + ["conj-injection@run", "HC_conj(function)", "sound+complete@SSIcov.run(calc_unc)"]
 CRIT = ["conj", "xi", "mpc", "mpd", "cov"]
 ALL_STATES = [f"fails {c} alone" for c in CRIT] + ["fails several", "passes all", "conj=False keeps orphan", "ordmin > 0"]
-REQUIRED_STATES = ["same instance re-run with relaxed criteria", "ordmin > 0", "fails xi alone", "fails mpc alone", "fails mpd alone", "fails cov alone", "fails conj alone", "passes all", "conj=False keeps orphan",
+REQUIRED_STATES = ["criteria given as numpy scalars / 0-d arrays / integers", "same instance re-run with relaxed criteria", "ordmin > 0", "fails xi alone", "fails mpc alone", "fails mpd alone", "fails cov alone", "fails conj alone", "passes all", "conj=False keeps orphan",
                    "relaxed mpd_lim in [0.5, 1.2] with mpc_lim = 0", "mpd_lim = 0", "mpc_lim = 1", "result tables re-examined after plotting with freqlim", "same instance run twice with the same criteria",
                    "limits a relative 1e-6 beside the indicators of existing poles"]
 RULE = ("noisy responses of systems with complex non-proportional shapes, high model orders (many spurious, negatively damped and real poles); a first "
@@ -195,6 +195,12 @@ def make_data(rng, ms):
     return fs, data, None, None
 
 
+def _note(ctx):
+    if getattr(build, "exotic", False):
+        ctx.state("criteria given as numpy scalars / 0-d arrays / integers")
+    build.exotic = False
+
+
 def build(alg, fs, data, ref, datasets, hc, rng, extra=None):
     from pyoma2 import algorithms as A_
     from pyoma2.setup import MultiSetup_PreGER, SingleSetup
@@ -202,6 +208,21 @@ def build(alg, fs, data, ref, datasets, hc, rng, extra=None):
     cls = getattr(A_, alg)
     if rng.random() < 0.5:
         hc = {k: hc[k] for k in [str(x) for x in rng.permutation(list(hc))]}  # the criteria are named: any key order means the same
+    if rng.random() < 0.4:
+        # the criteria come out of a user's dictionary untouched: a flag is on when it is truthy, a limit is its numeric value, whatever the number type
+        hc = dict(hc)
+        for k_, v_ in list(hc.items()):
+            if k_ == "conj":
+                hc[k_] = [np.bool_(bool(v_)), int(bool(v_)), np.array(bool(v_))][int(rng.integers(0, 3))]
+            elif v_ is not None:
+                f32 = np.float32(v_)
+                opts = [np.array(float(v_)), np.float64(v_)]
+                if float(f32) == float(v_):
+                    opts.append(f32)
+                if float(v_) == int(float(v_)):
+                    opts.append(np.int64(int(float(v_))))
+                hc[k_] = opts[int(rng.integers(0, len(opts)))]
+        build.exotic = True
     if alg.startswith("pLSCF"):
         h = {k: v for k, v in hc.items() if k != "cov_max"}
         kw = dict(ordmax=int(extra.get("ordmax", 9)), nxseg=256, hc=h, method_SD=extra.get("method_SD", "per"), ordmin=int(extra.get("ordmin", 0)))
@@ -280,6 +301,7 @@ def run_adaptive(ctx, case, rng, calc_unc=False):
         extra["method_SD"] = "per" if rng.random() < 0.6 else "cor"
     # pass 1: default thresholds, observe the indicator distributions of the unfiltered solution
     s, a = build(alg, fs, data, ref, datasets, dict(NEUTRALISH, conj=True), rng, extra)
+    _note(ctx)
     with capture(alg) as unf:
         s.run_all()
     if not unf:
@@ -313,6 +335,7 @@ def run_adaptive(ctx, case, rng, calc_unc=False):
     if alg.startswith("pLSCF"):
         hc2.pop("cov_max")
     s2, a2 = build(alg, fs, data, ref, datasets, hc2, rng, extra)
+    _note(ctx)
     with capture(alg) as unf2:
         s2.run_all()
     r2 = judge_run(ctx, alg, unf2, a2.result, hc2, not alg.startswith("pLSCF"), suffix)
@@ -365,6 +388,7 @@ def run_adaptive(ctx, case, rng, calc_unc=False):
         hc4 = dict(hc2, conj=True, xi_max=float(rng.choice([1e-6, 1.0])), mpc_lim=0.0, mpd_lim=np.pi / 2)
         ctx.state("only conj / xi_max active")
     s4, a4 = build(alg, fs, data, ref, datasets, hc4, rng, extra)
+    _note(ctx)
     with capture(alg) as unf4:
         s4.run_all()
     judge_run(ctx, alg, unf4, a4.result, hc4, not alg.startswith("pLSCF"), suffix)
@@ -411,6 +435,7 @@ def run_injection(ctx, case, rng):
         if alg.startswith("pLSCF"):
             hc.pop("cov_max")
         s, a = build(alg, fs, data, ref, datasets, hc, rng, extra)
+        _note(ctx)
         with capture(alg, inject) as unf:
             s.run_all()
         ctx.ev("conj-injection@run")
